@@ -49,9 +49,64 @@ def place_of(op):
     return op.get("move") or op.get("copy")
 
 
+PATH_CARRIERS = ("std::path::", "std::ffi::OsStr", "std::ffi::OsString", "std::fs::", "tempfile::", "std::io::BufWriter",
+                 "std::io::BufReader", "std::io::LineWriter", "std::string::String", "std::borrow::Cow",
+                 "std::sync::mpsc::")
+
+
+def can_carry_path(prog, ty_ix, _seen=None, _memo={}):
+    """Can a value of this type hold a path or a file handle?  Scalars, hashes, byte strings and containers of them
+    cannot: path-class labels are not propagated into them (a hash that was computed next to a log segment is not
+    "a WAL path")."""
+    key = (id(prog), ty_ix)
+    if key in _memo:
+        return _memo[key]
+    _seen = _seen or set()
+    if ty_ix in _seen:
+        return False
+    _seen = _seen | {ty_ix}
+    t = prog.types[ty_ix]
+    k = t.get("k")
+    res = True
+    if k in ("prim", "never", "fndef"):
+        res = False
+    elif k == "str":
+        res = True
+    elif k in ("ref", "ptr", "array", "slice"):
+        res = can_carry_path(prog, t["in"], _seen)
+    elif k == "tuple":
+        res = any(can_carry_path(prog, a, _seen) for a in t.get("args", []) if isinstance(a, int))
+    elif k == "closure":
+        ups = [u for u in t.get("upvars", []) if isinstance(u, int)]
+        res = any(can_carry_path(prog, u, _seen) for u in ups) if t.get("upvars") is not None else True
+    elif k == "adt":
+        d = t.get("def", "")
+        if d.startswith(PATH_CARRIERS):
+            res = True
+        elif d in prog.adts:
+            res = False
+            for v in prog.adts[d]["variants"]:
+                for f in v["fields"]:
+                    if can_carry_path(prog, f["ty"], _seen):
+                        res = True
+            # generic arguments of a local type (Index<K> ...)
+            if not res:
+                res = any(can_carry_path(prog, a, _seen) for a in t.get("args", []) if isinstance(a, int))
+        else:
+            args = [a for a in t.get("args", []) if isinstance(a, int)]
+            res = any(can_carry_path(prog, a, _seen) for a in args)
+    elif k == "param":
+        res = True       # unknown: a generic `A` may well be a File handed through a combinator
+    if len(_seen) == 1:
+        _memo[key] = res
+    return res
+
+
 class VFG(object):
-    def __init__(self, prog):
+    def __init__(self, prog, admit_paths_only=False):
         self.prog = prog
+        self.admit_paths_only = admit_paths_only
+        self._admit = {}
         self.edges = collections.defaultdict(set)
         self.redges = collections.defaultdict(set)
         self.labels = collections.defaultdict(set)
@@ -234,6 +289,28 @@ class VFG(object):
     def seed(self, node, label):
         self.seeds.append((node, label))
 
+    def admits(self, node):
+        """Path-class graphs only: may this node hold a path at all (by its type)?"""
+        if not self.admit_paths_only:
+            return True
+        r = self._admit.get(node)
+        if r is None:
+            r = True
+            prog = self.prog
+            if node[0] == "L":
+                b = prog.bodies.get(node[1])
+                if b is not None and node[2] < len(b.locals):
+                    r = can_carry_path(prog, b.locals[node[2]])
+            elif node[0] == "F":
+                adt = prog.adts.get(node[1])
+                if adt is not None:
+                    for v in adt["variants"]:
+                        for f in v["fields"]:
+                            if f["name"] == node[2]:
+                                r = can_carry_path(prog, f["ty"])
+            self._admit[node] = r
+        return r
+
     def solve(self):
         labels = self.labels
         work = collections.deque()
@@ -253,7 +330,7 @@ class VFG(object):
                 n = work.popleft()
                 ls = labels[n]
                 for m in self.edges.get(n, ()):
-                    if not ls <= labels[m]:
+                    if not ls <= labels[m] and self.admits(m):
                         labels[m] |= ls
                         work.append(m)
                 for tr in by_src.get(n, ()):
@@ -263,7 +340,7 @@ class VFG(object):
             trs, pending = pending, []
             for fn, srcs, dst, site in trs:
                 new = fn(self, [labels[s] if s is not None else set() for s in srcs], site)
-                if new and not new <= labels[dst]:
+                if new and not new <= labels[dst] and self.admits(dst):
                     labels[dst] |= new
                     work.append(dst)
 
@@ -463,7 +540,7 @@ SPECIAL = dict((norm(k), v) for k, v in SPECIAL.items())
 
 def build_path_classes(prog):
     """Seeds the roots and solves. Returns the VFG."""
-    g = VFG(prog)
+    g = VFG(prog, admit_paths_only=True)
     anchors = {}
     ctor = prog.bodies.get("paths::DbPaths::new")
     anchors["DbPaths::new"] = ctor is not None
